@@ -7,7 +7,7 @@
   the correspondence check (`map_read`, both views, after every step).
 -/
 import XotModel.Lemmas.ForestBasic
-import XotModel.Lemmas.FmapNode
+import XotModel.Lemmas.FmapInv
 
 namespace XotModel.Props
 open XotModel
@@ -218,6 +218,17 @@ theorem C11_refine_remove_node (f : Forest) (hi : f.Inv) (k : Forest.MapKind) (e
   rw [st.abs_same, hmap, h.abs_eq k]
   rfl
 
+/-- `append_*_node` / `any_append` of a node that already is an entry of this view of this
+    element is the identity and returns that node. -/
+theorem C11_append_own_node (f : Forest) (hi : f.Inv) (k : Forest.MapKind) (e hd : Nat)
+    (he : f.isElement e = true) (hm : hd ∈ absNodes k f e) :
+    f.appendEntryNode k e hd = (f, .ok, hd) := by
+  obtain ⟨nm, N, A, S, h⟩ := minv_of_inv f e hi he
+  rw [h.absNodes_eq k] at hm
+  obtain ⟨n, hn, hh⟩ := List.mem_map.mp hm
+  rw [← hh]
+  exact appendEntryNode_own h k n hn
+
 /-- Keys are distinct in both views of every node of a forest satisfying the invariant. -/
 theorem C11_unique_keys (f : Forest) (hi : f.Inv) (k : Forest.MapKind) (e : Nat) :
     omWf (abs k f e) := unique_keys_of_inv f hi k e
@@ -254,17 +265,17 @@ theorem C11_reads (f : Forest) (k : Forest.MapKind) (e key : Nat) :
 /-- Histories.  Any sequence of map-style updates (`insert`, `remove`, `clear`) and node-style
     updates (a fresh attribute / namespace node appended with `append_*_node` = `any_append`) of
     both views of one element, from any forest satisfying the invariant: no step panics or
-    fails, and after the history each view equals the reference map fed the steps addressed to
-    it (`specOps`). -/
+    fails, after the history each view equals the reference map fed the steps addressed to
+    it (`specOps`), and the whole invariant holds again. -/
 theorem C11_histories (f : Forest) (hi : f.Inv) (e : Nat) (he : f.isElement e = true)
     (ops : List MapOp) (hwf : ∀ op ∈ ops, op.wf = true) :
     (∀ r ∈ (runOps e f ops).2, r = .ok) ∧
     (∀ k, abs k (runOps e f ops).1 e = specOps k (abs k f e) ops) ∧
     (∀ k, omWf (abs k (runOps e f ops).1 e)) ∧
-    (runOps e f ops).1.isElement e = true := by
+    (runOps e f ops).1.isElement e = true ∧ (runOps e f ops).1.Inv := by
   obtain ⟨nm, N, A, S, h⟩ := minv_of_inv f e hi he
   obtain ⟨N', A', h', hok, hv⟩ := runOps_spec e nm S ops f N A h hwf
-  refine ⟨hok, hv, ?_, h'.isElement⟩
+  refine ⟨hok, hv, ?_, h'.isElement, runOps_inv e ops f hi he hwf⟩
   intro k
   rw [h'.abs_eq k]
   have := h'.uniq k
@@ -275,10 +286,25 @@ theorem C11_histories (f : Forest) (hi : f.Inv) (e : Nat) (he : f.isElement e = 
 theorem C11_step (f : Forest) (hi : f.Inv) (e : Nat) (he : f.isElement e = true) (op : MapOp)
     (hwf : op.wf = true) :
     (op.run e f).2 = .ok ∧ (∀ k, abs k (op.run e f).1 e = op.specFor k (abs k f e)) ∧
-    (op.run e f).1.isElement e = true := by
+    (op.run e f).1.isElement e = true ∧ (op.run e f).1.Inv := by
   obtain ⟨nm, N, A, S, h⟩ := minv_of_inv f e hi he
   obtain ⟨N', A', h', hok, hv⟩ := op_step h op hwf
-  exact ⟨hok, hv, h'.isElement⟩
+  exact ⟨hok, hv, h'.isElement, op_inv f hi e he op hwf⟩
+
+/-- The map operations preserve the whole invariant of C04 (`Forest.Inv`: distinct handles below
+    `next`, every tree structurally valid, …), so they can be chained with any other operation
+    proved to preserve it: `insert`, `remove`, `clear`, `append_*_node` of a detached entry node,
+    `detach` of an entry node (`remove` of one is `remove(key)`, `C11_refine_remove_node`). -/
+theorem C11_preserves_inv (f : Forest) (hi : f.Inv) (k : Forest.MapKind) (e : Nat)
+    (he : f.isElement e = true) :
+    (∀ entry, k.matches entry = true → (f.mapInsert k e entry).1.Inv) ∧
+    (∀ key, (f.mapRemove k e key).1.Inv) ∧ (f.mapClear k e).1.Inv ∧
+    (∀ nd v, f.isRoot nd = true → f.value? nd = some v → k.matches v = true →
+      (f.appendEntryNode k e nd).1.Inv) ∧
+    (∀ hd, hd ∈ absNodes k f e → (f.detach hd).1.Inv) :=
+  ⟨fun entry hm => mapInsert_inv f hi k e entry he hm, fun key => mapRemove_inv f hi k e key he,
+    mapClear_inv f hi k e he, fun nd v hr hv hm => appendEntryNode_inv f hi k e nd v he hr hv hm,
+    fun hd hm => detach_node_inv f hi k e hd he hm⟩
 
 /-! ### The entry API (nodemap/entry.rs, modelled in Model/FmapEntry.lean) and `get_mut` -/
 
@@ -384,6 +410,8 @@ def c11Example : Forest :=
 example : c11Example.Inv ∧ c11Example.isElement 1 = true ∧
     c11Example.isRoot 6 = true ∧ c11Example.value? 6 = some (.attribute 3 ['n']) :=
   ⟨(Forest.inv_iff _).mp (by decide), by decide, by decide, by decide⟩
+
+example : 3 ∈ absNodes .attributes c11Example 1 ∧ 2 ∈ absNodes .namespaces c11Example 1 := by decide
 
 example : abs .attributes c11Example 1 = [(3, .str ['v']), (5, .str ['w'])] ∧
     abs .attributes (c11Example.mapInsert .attributes 1 (.attribute 3 ['z'])).1 1 =
